@@ -104,6 +104,8 @@ def _run_cases(cases, oracles, nontrivial, attribute=None):
         for n_ in runners[c.cid].notes:
             if n_[0] == 'cond-form':
                 hist[f'shape:condition operands as {n_[1]}' + (' (empty)' if n_[2] == 0 else '')] += 1
+            elif n_[0] == 'exit-unwinding':
+                hist[f'shape:with-block left by {n_[1]}' + (f'({n_[2]})' if n_[1] == 'Interrupt' else '') + ' handled outside it'] += 1
             elif n_[0] == 'evicted':
                 hist['shape:eviction decided during ' + ('a kernel step' if n_[6][0] == 'step' else f'a {n_[6][0]} call')] += 1
         txt = c.text().split('\n', 1)[1]
